@@ -129,8 +129,9 @@ namespace RecInt
     template <size_t K, size_t MG>
     inline rmint<K, MG>& sub(rmint<K, MG>& a, const rmint<K, MG>& b, const rmint<K, MG>& c) {
         if (b.Value < c.Value) { // c > 0 and (b - c) < p
-            sub(a.Value, a.p, c.Value);
-            add(a.Value, b.Value);
+            // p - (c - b): b and c are both read before a is written (a may be b or c)
+            sub(a.Value, c.Value, b.Value);
+            sub(a.Value, a.p, a.Value);
         } else {
             sub(a.Value, b.Value, c.Value);
         }
